@@ -36,18 +36,19 @@ Definition step_last (nodes : list tree) : option (list tree) :=
   end.
 
 (* a = nodes.pop(max(r, c)); b = nodes.pop(min(r, c)); nodes.append(merge(a, b)) *)
+(* (r = c can happen - a negative epsilon with no positive similarity makes the diagonal entry (0, 0) the argmax -
+   and then pops position r twice, i.e. the clusters at r and r + 1) *)
 Definition step_pair (r c : nat) (nodes : list tree) : option (list tree) :=
-  if Nat.eqb r c then None
-  else match pop_nth (Nat.max r c) nodes with
-       | Some (a, n1) => match pop_nth (Nat.min r c) n1 with
-                         | Some (b, n2) => Some (n2 ++ [Merge a b])
-                         | None => None
-                         end
-       | None => None
-       end.
+  match pop_nth (Nat.max r c) nodes with
+  | Some (a, n1) => match pop_nth (Nat.min r c) n1 with
+                    | Some (b, n2) => Some (n2 ++ [Merge a b])
+                    | None => None
+                    end
+  | None => None
+  end.
 
-(* an impossible decision (equal or out-of-range positions) falls back to "pop the last two";
-   the implementation never produces one (argmax of an n x n matrix above epsilon is off-diagonal) *)
+(* an impossible decision (out-of-range positions) falls back to "pop the last two";
+   the implementation never produces one (argmax is a position of the n x n matrix) *)
 Definition step (d : decision) (nodes : list tree) : option (list tree) :=
   match d with
   | DPair r c => match step_pair r c nodes with Some n' => Some n' | None => step_last nodes end
